@@ -7,10 +7,13 @@ Configs == {
   [n |-> 4, kind |-> <<"m", "m", "l", "l">>, name |-> <<0, 0, 2, 2>>, dfr |-> <<FALSE, FALSE, TRUE, TRUE>>],
   [n |-> 3, kind |-> <<"m", "l", "l">>, name |-> <<0, 1, 1>>, dfr |-> <<FALSE, TRUE, FALSE>>] }
 Init == \E c \in Configs : InitWith(c)
-Spec == Init /\ [][Next]_vars
-WildSpec == Init /\ [][NextAll]_vars
+\* as Next, but renaming is tried once, on leaves, to None or the contested name (keeps the quick run small)
 Renames == Cardinality({s \in S : name[s] # cfg.name[s]})
-Bound == ntok <= 3 /\ nw <= 2 /\ Renames <= 1 /\ TLCGet("level") <= 7
+MCSetName == \E s \in S, k \in {0, 2} : Renames = 0 /\ ~Multi(s) /\ SetName(s, k)
+MCNext == DAdd \/ DDisown \/ DPriv \/ DStart \/ DStop \/ DFire \/ MCSetName \/ DGet
+Spec == Init /\ [][MCNext]_vars
+WildSpec == Init /\ [][NextAll]_vars
+Bound == ntok <= 3 /\ nw <= 2 /\ Renames <= 1 /\ TLCGet("level") <= 6
 View == <<cfg, name, par, kids, named, run, ntok, tokw, tokdone, nw, worig, wn, wdone, dang, corrupt, dstart, dstop, wild>>
 \* properties of the last call are checked on EVERY transition (the VIEW hides `last`)
 StepInv == [][CallOrder' /\ AddStarts' /\ RemoveStops']_vars
